@@ -10,3 +10,6 @@ ob("da_set_incr1", "C12", entry="h_da_set", enforce="DAset_elem", defines=["DA_I
 ob("da_del", "C12", entry="h_da_del", enforce="DAdel_elem", **DA)
 ob("da_size", "C12", entry="h_da_size", enforce="DAsize_array", **DA)
 ob("da_create", "C12", entry="h_da_create", enforce="DAcreate_array", **DA)
+ob("da_set_t1", "C12", entry="h_da_set", enforce="DAset_elem", defines=["DA_NOGROW"], **DA)
+ob("da_set_t2", "C12", entry="h_da_set", enforce="DAset_elem", defines=["DA_INCR=8", "DA_MAXELEM=63", "DA_MAXN=64"], **DA)
+ob("da_set_t3", "C12", entry="h_da_set", enforce="DAset_elem", defines=["DA_INCR=256", "DA_MAXELEM=511", "DA_MAXN=512"], **DA)
